@@ -100,7 +100,7 @@ def PAIRS():
         ex.stepper.reaction.AllenCahn(D, L, N, dt, diffusivity=nu, first_order_coefficient=0.9, third_order_coefficient=-1.1, order=o),
         g(ex).GeneralPolynomialStepper(D, L, N, dt, linear_coefficients=(0.9 / D, 0.0, nu), polynomial_coefficients=(0.0, 0.0, 0.0, -1.1), dealiasing_fraction=0.5, order=o),
         1, (0.9 / D, 0, nu)))
-    kc, rr = 1.0, 0.7
+    kc, rr = 0.8, 0.6  # not the defaults: k and k^2 differ
     add("SwiftHohenberg~GeneralPolynomial(1D)", (1,), lambda ex, jnp, D, N, L, dt, o: (
         ex.stepper.reaction.SwiftHohenberg(D, L, N, dt, reactivity=rr, critical_number=kc, polynomial_coefficients=(0.0, 0.0, 1.0, -1.0), order=o),
         g(ex).GeneralPolynomialStepper(D, L, N, dt, linear_coefficients=(rr - kc * kc, 0.0, -2 * kc, 0.0, -1.0), polynomial_coefficients=(0.0, 0.0, 1.0, -1.0),
